@@ -383,3 +383,24 @@ def register(ex):
     p("genDataVrpTableLocal", "Bool", "true",
       "data/generate_data.py:generate_vrp_data  the `CAPACITIES` table that `capacities=` overrides update in place is a local of the call",
       table_is_local("generate_vrp_data", "CAPACITIES"))
+
+    # ---- PolyNet warm start: how checkpoint keys are mapped onto policy keys ----------------------------------------------
+    PN = "rl4co/models/zoo/polynet/model.py"
+
+    def polynet_keymap():
+        tree = ex.parse(PN)
+        fn = ex.find_function(tree, "PolyNet.__init__") if tree else None
+        if fn is None:
+            return None
+        for n in ast.walk(fn):
+            if isinstance(n, ast.DictComp) and ex.norm(n.value) == "v":
+                k = ex.norm(n.key)
+                if k == "k.replace('policy.','',1)":
+                    return "true"
+                if k in ("k.split('policy.',1)[-1]", "k.split('policy.')[-1]", "k.rsplit('policy.',1)[-1]", "k.replace('policy.','')"):
+                    return "false"
+        return None
+
+    p("genPolynetKeyMapReplaceFirst", "Bool", "true",
+      "polynet/model.py:__init__  warm start maps checkpoint keys with `k.replace('policy.', '', 1)` (strip the leading prefix only)",
+      polynet_keymap)
